@@ -6,6 +6,9 @@ knows.  The order is fixed: selectors are indices into NAMES.
 """
 import re
 
+# the text every injected exception carries: it holds what a careless format()/% of a message template trips over
+MESSAGE = 'vsym injected {x} {0} { } %s %(y)d'
+
 NAMES = (
     'ArithmeticError', 'AssertionError', 'AttributeError', 'BlockingIOError', 'BrokenPipeError', 'BufferError',
     'BytesWarning', 'ChildProcessError', 'ConnectionAbortedError', 'ConnectionError', 'ConnectionRefusedError',
@@ -48,14 +51,14 @@ def cls_of(name: str):
 def instance(name: str) -> Exception:
     c = cls_of(name)
     if name == 'UnicodeDecodeError':
-        return c('utf-8', b'\xff', 0, 1, 'vsym injected')
+        return c('utf-8', b'\xff', 0, 1, MESSAGE)
     if name == 'UnicodeEncodeError':
-        return c('ascii', '\xe9', 0, 1, 'vsym injected')
+        return c('ascii', '\xe9', 0, 1, MESSAGE)
     if name == 'UnicodeTranslateError':
-        return c('\xe9', 0, 1, 'vsym injected')
+        return c('\xe9', 0, 1, MESSAGE)
     if name == 'ExceptionGroup':
-        return c('vsym injected', [ValueError('member')])
-    return c('vsym injected')
+        return c(MESSAGE, [ValueError('member')])
+    return c(MESSAGE)
 
 
 def builtin_exception_names():
